@@ -3,6 +3,8 @@ from .. import core, scope, gen, drive
 from .common import *
 
 FMTS = ("list", "array", "narrowarray", "dict", "valueof", "falsydict", "emptystr")
+# presentations of the common-factor family (values around 1e9: each fits a signed 32-bit integer, sums of two and the bin size do not)
+FMTS_G = ("list", "int32array", "uint32array", "int64array", "iddict")
 
 
 def part_calls(g, rng, q):
@@ -40,6 +42,10 @@ def run(ck):
         g["ilp"] = (i % 30 == 0)
         g["calls"] = part_calls(g, ck.rng, q); g["watchdog"] = 10; groups.append(g)
     groups += [dict(g, calls=[dict(c, fmt=f) for c in g["calls"] for f in FMTS]) for g in witness_groups(ck)]
+    for i in range(60 if q else 1500):      # common-factor family: 3-8 values <= 21, presented multiplied by 1e8 as 32/64-bit arrays, list, dict
+        g = {"vals": [ck.rng.randint(1, 21) for _ in range(ck.rng.randint(3, 8))], "k": ck.rng.choice([2, 3, 3, 4]), "mul": 10 ** 8}
+        g["calls"] = [dict(c, fmt=f) for c in part_calls(g, ck.rng, q) if c["fmt"] == "list" for f in FMTS_G]
+        g["watchdog"] = 10; groups.append(g); ck.cat("common_factor_1e8")
     traces = core.pmap(drive.run_part_group, groups)
     for t in traces:
         ck.evaluations += len(t["res"])
@@ -69,9 +75,18 @@ def run(ck):
         g = dict(g); g["orc"] = 0
         g["calls"] = [pcall(a, f, extra=False) for a in COVERS for f in FMTS]
         groups.append(g)
+    for g in gen.gscale_families(ck.rng, 150 if q else 4000, cover=False):
+        g = dict(g); g["orc"] = 0; g.pop("fmts")
+        g["calls"] = [pcall(a, f, extra=False) for a in PACKERS for f in FMTS_G]
+        groups.append(g); ck.cat("common_factor_1e8")
+    for g in gen.gscale_families(ck.rng, 150 if q else 4000, cover=True):
+        g = dict(g); g["orc"] = 0; g.pop("fmts")
+        g["calls"] = [pcall(a, f, extra=False) for a in COVERS for f in FMTS_G]
+        groups.append(g); ck.cat("common_factor_1e8")
     ck.rule = ("every algorithm is called on every input of a TLC-enumerated universe (bags n<=5, v<=4, k<=4; sequences for packing/covering) in seven presentations: "
                "plain list, numpy array, narrow-dtype numpy array, dict with string names, list of integer names + value function (names unrelated to values), dicts whose largest item is named 0 / the empty string (falsy names); TLC compares the bags of sums "
-               "and checks the named results over the names; plus seeded families. non-trivial = distinct input with >=2 items")
+               "and checks the named results over the names; plus seeded families; plus a common-factor family (values <= 21 presented multiplied by about 1e8 as int32 / uint32 / int64 arrays, list and dict: every value fits 32 bits, "
+               "sums and bin sizes do not; dividing the answers by the factor is exact, so TLC judges the small numbers). non-trivial = distinct input with >=2 items")
     run_pack_groups(ck, groups, {"C07"}, "C07 packers / covers across presentations", chunk=6000)
     ck.assumptions += ["TLC / SANY / CommunityModules", "the harness's name<->id bijection (DESIGN 4.3)"]
 
